@@ -141,16 +141,20 @@ def splitLines (s : List Char) : List (List Char) :=
     | c :: cs => if c = '\n' then cur.reverse :: go [] cs else go (c :: cur) cs
   go [] s
 
+/-- memory adapter: a line `[sec, ptype, fields…]` is one record (memory_adapter.rs:18-30) -/
+def memRecords (lines : List Rule) : List (String × String × Rule) :=
+  lines.filterMap (fun l =>
+    match l with
+    | sec :: ptype :: rule => some (sec, ptype, rule)
+    | _ => none)
+
 /-- the records `(sec, ptype, rule)` an adapter offers to a loader, in order.
 file/string: `load_policy_line` (file_adapter.rs:235-251, string_adapter.rs:226-242):
 skip `""` and `#…`, parse, first char of the first token selects the section. -/
 def AdapterSt.records (a : AdapterSt) : List (String × String × Rule) :=
   match a.kind with
   | .null => []
-  | .memory => a.lines.filterMap (fun l =>
-      match l with
-      | sec :: ptype :: rule => some (sec, ptype, rule)
-      | _ => none)
+  | .memory => memRecords a.lines
   | _ =>
     let ls := splitLines a.text
     -- tokio's `lines()` also strips a trailing '\r'; the harness never writes one
